@@ -315,6 +315,7 @@ const prelude = `(set-option :smt.mbqi true)
 (define-fun nil_iface () Iface (mk_iface 0 0))
 (declare-datatypes ((Fn 0)) (((mk_fn (fn_id Int) (fn_env Ref)))))
 (define-fun nil_fn () Fn (mk_fn 0 null))
+(declare-fun iscell (Ref) Bool)
 (declare-fun implements (Int Int) Bool)
 (declare-fun bv_and (Int Int) Int)
 (declare-fun bv_or (Int Int) Int)
